@@ -1,27 +1,206 @@
-//! C14 — not built yet (stub so that the binary links; `./check C14` reports INFRA until replaced).
+//! C14 — call/return sugar and layout never change meaning (metamorphic: two surface plans, one GenAST).
+use crate::common::*;
 use arbitrary::Unstructured;
-use vcore::{Check, Labels, Plan, Tier, Verdict};
+use serde::{Deserialize, Serialize};
+use syltmodel::gen::{Gen, GenCfg};
+use syltmodel::print::{Choices, Plan as SurfacePlan};
+use vcore::{compile, Check, Labels, Outcome, Plan, Project, Stats, Step, Tape, Tier, Verdict};
 
-pub struct Stub;
-pub const CHECK: Stub = Stub;
-pub fn plan(_t: Tier) -> Plan {
-    Plan::new(1, 16)
+pub struct C14;
+pub const CHECK: C14 = C14;
+pub fn plan(t: Tier) -> Plan {
+    Plan::new(t.pick(4_000, 80_000), t.pick(3200, 4500))
 }
-impl Check for Stub {
-    type Case = u8;
+
+#[derive(Clone, Serialize, Deserialize)]
+pub struct Case {
+    pub prog: syltmodel::ast::Program,
+    pub a: SurfacePlan,
+    pub b: SurfacePlan,
+    #[serde(default)]
+    pub source_a: String,
+    #[serde(default)]
+    pub source_b: String,
+}
+
+fn choices(t: &mut Tape, n: usize, density: u32) -> Choices {
+    let mut v = Vec::with_capacity(n);
+    for _ in 0..n {
+        v.push(if t.chance(density, 8) { t.byte() } else { 0 });
+    }
+    Choices(v)
+}
+
+pub fn random_surface(t: &mut Tape, avoid_paren_do: bool) -> SurfacePlan {
+    let mut p = SurfacePlan::default();
+    p.callform = choices(t, 160, 4);
+    p.retform = choices(t, 60, 4);
+    p.loopform = choices(t, 20, 4);
+    // redundant parentheses around an if-expression whose branch starts with a do-block is a known finding
+    p.parens = if avoid_paren_do { choices(t, 200, 2) } else { choices(t, 200, 3) };
+    p.comments = choices(t, 120, 2);
+    p.blanks = choices(t, 120, 2);
+    p.breaks = choices(t, 120, 3);
+    p.indent = t.below(10) as u8;
+    p.crlf = t.chance(1, 8);
+    p
+}
+
+fn normalise(lua: &[u8]) -> Vec<u8> {
+    // the line number inside `<!>` messages may differ
+    let s = String::from_utf8_lossy(lua);
+    let mut out = String::with_capacity(s.len());
+    let pat = "Reached unreachable code on line ";
+    let mut rest: &str = &s;
+    while let Some(i) = rest.find(pat) {
+        out.push_str(&rest[..i + pat.len()]);
+        rest = &rest[i + pat.len()..];
+        let digits = rest.chars().take_while(|c| c.is_ascii_digit()).count();
+        out.push('N');
+        rest = &rest[digits..];
+    }
+    out.push_str(rest);
+    out.into_bytes()
+}
+
+impl Check for C14 {
+    type Case = Case;
     fn id(&self) -> &'static str {
         "C14"
     }
-    fn generate(&self, _u: &mut Unstructured, _tier: Tier) -> Option<u8> {
-        None
+    fn generate(&self, u: &mut Unstructured, tier: Tier) -> Option<Case> {
+        let mut t = Tape::new(u);
+        let mut cfg = GenCfg::core(tier == Tier::Thorough);
+        // known finding (do-block as first statement of a branch, inside brackets): avoided for 80 % of the budget
+        let raw = t.chance(1, 5);
+        cfg.avoid_leading_do_block = !raw;
+        let prog = Gen::new(&mut t, cfg).program();
+        let a = SurfacePlan::default();
+        let b = random_surface(&mut t, !raw);
+        let source_a = render(&prog, &a).text;
+        let source_b = render(&prog, &b).text;
+        Some(Case { prog, a, b, source_a, source_b })
     }
-    fn evaluate(&self, _case: &u8, _labels: &mut Labels) -> Verdict {
-        Verdict::Discard("stub".into())
+
+    fn evaluate(&self, case: &Case, labels: &mut Labels) -> Verdict {
+        let pa = render(&case.prog, &case.a);
+        let pb = render(&case.prog, &case.b);
+        let oa = compile(&Project::single(pa.text.clone()));
+        let la = match &oa {
+            Outcome::Accepted(b) => b,
+            Outcome::Rejected { errors, .. } => {
+                labels.add(format!("base-rejected:{}:{}", errors[0].kind, errors[0].sub));
+                return Verdict::Discard("base-rejected".into());
+            }
+            Outcome::Panicked { .. } => return Verdict::Discard("compiler-panicked".into()),
+        };
+        labels.add("accepted");
+        let s = &pb.sites;
+        if s.call_prime > 0 {
+            labels.add("prime-call");
+        }
+        if s.call_arrow > 0 {
+            labels.add("arrow-call");
+        }
+        if s.nested_sugar > 0 {
+            labels.add("nested-sugar");
+        }
+        if s.ret > s.ret_trailing {
+            labels.add("ret-form");
+        }
+        if s.parens_added > 0 {
+            labels.add("redundant-parens");
+        }
+        if s.comments_added > 0 {
+            labels.add("comments");
+        }
+        if s.breaks_added > 0 {
+            labels.add("line-breaks-in-brackets");
+        }
+        if case.b.crlf {
+            labels.add("crlf");
+        }
+        let ob = compile(&Project::single(pb.text.clone()));
+        let lb = match &ob {
+            Outcome::Accepted(b) => b,
+            Outcome::Rejected { errors, .. } => {
+                // stable class: the message up to the first quoted name
+                let what: String = errors[0].message.split('"').next().unwrap_or("").chars().take(40).collect();
+                return Verdict::Violation {
+                    signature: format!("C14/acceptance/{}:{}", errors[0].kind, what.trim()),
+                    detail: format!(
+                        "the default rendering is accepted, the re-rendering (same program, other sugar/layout) is rejected: {}\n--- default ---\n{}\n--- variant ---\n{}",
+                        ob.short(),
+                        pa.text,
+                        pb.text
+                    ),
+                };
+            }
+            Outcome::Panicked { .. } => return Verdict::Discard("compiler-panicked".into()),
+        };
+        let (na, nb) = (normalise(la), normalise(lb));
+        if na != nb {
+            let sa = String::from_utf8_lossy(&na).to_string();
+            let sb = String::from_utf8_lossy(&nb).to_string();
+            let la: Vec<&str> = sa.lines().collect();
+            let lb: Vec<&str> = sb.lines().collect();
+            let mut first = 0;
+            while first < la.len().min(lb.len()) && la[first] == lb[first] {
+                first += 1;
+            }
+            return Verdict::Violation {
+                signature: "C14/bytes-differ".into(),
+                detail: format!(
+                    "emitted Lua differs at chunk line {}: {:?} vs {:?}\n--- default ---\n{}\n--- variant ---\n{}",
+                    first + 1,
+                    la.get(first),
+                    lb.get(first),
+                    pa.text,
+                    pb.text
+                ),
+            };
+        }
+        let differing = s.call_prime + s.call_arrow + (s.ret - s.ret_trailing) + s.parens_added + s.comments_added + s.blanks_added + s.breaks_added;
+        Verdict::Pass { nontrivial: differing >= 3 && (s.nested_sugar > 0 || (s.call_prime + s.call_arrow > 0 && s.breaks_added > 0)) }
+    }
+
+    fn simplify_at(&self, case: &Case, idx: usize) -> Step<Case> {
+        let pc = ProgCase { prog: case.prog.clone(), plan: case.a.clone(), source: String::new() };
+        match shrink_step(&pc, idx) {
+            Step::End => Step::End,
+            Step::Skip => Step::Skip,
+            Step::Candidate(p) => {
+                let source_a = render(&p.prog, &case.a).text;
+                let source_b = render(&p.prog, &case.b).text;
+                Step::Candidate(Case { prog: p.prog, a: case.a.clone(), b: case.b.clone(), source_a, source_b })
+            }
+        }
+    }
+    fn sample(&self, case: &Case) -> serde_json::Value {
+        vcore::truncate_value(serde_json::json!({"default": render(&case.prog, &case.a).text, "variant": render(&case.prog, &case.b).text}), 1800)
     }
     fn rule(&self) -> String {
-        "stub".into()
+        "cases: one random well-typed GenAST program rendered twice: default surface plan vs a random plan choosing, per site, the call \
+         form (f(a, b) / f' a, b where the greedy argument list cannot swallow anything or in parentheses / a -> f(b) for plain-name \
+         callees), `ret e` vs trailing expression, `loop do` vs `loop true do`, redundant parentheses, comment lines and trailing \
+         comments, blank lines, indentation (0-8 spaces or tab), line breaks after commas inside () [] {} and call parentheses, CRLF. \
+         Oracle: both accepted and the emitted Lua is byte-identical after replacing the number in `Reached unreachable code on line N`. \
+         non-trivial = >= 3 differing sites including a nested sugar (prime/arrow call inside another sugared call) or a sugared call \
+         together with a line break inside brackets; distinct by case hash"
+            .into()
     }
-    fn health(&self, _s: &vcore::Stats) -> Result<(), String> {
-        Err("check not built yet".into())
+    fn health(&self, s: &Stats) -> Result<(), String> {
+        if s.evaluations < 200 {
+            return Ok(());
+        }
+        if (s.label("accepted") as f64) < 0.5 * s.evaluations as f64 {
+            return Err("fewer than half of the base programs compile".into());
+        }
+        for l in ["prime-call", "arrow-call", "nested-sugar", "ret-form", "redundant-parens", "comments", "line-breaks-in-brackets", "crlf"] {
+            if s.label(l) * 25 < s.evaluations {
+                return Err(format!("surface feature {} is (nearly) absent: {} of {}", l, s.label(l), s.evaluations));
+            }
+        }
+        Ok(())
     }
 }
